@@ -632,6 +632,14 @@ func (r *rw) expr(e ast.Expr, h *hooks) ast.Expr {
 						return n
 					}
 				}
+				// s.Run(ctx) in serve.go: the harness gets a hook just before the server starts to listen
+				if se, ok := n.Fun.(*ast.SelectorExpr); ok && se.Sel.Name == "Run" && len(n.Args) == 1 {
+					if t := r.info.TypeOf(se.X); t != nil && strings.HasSuffix(t.String(), "olareg.Server") {
+						n.Args = append([]ast.Expr{se.X}, n.Args...)
+						n.Fun = ast.NewIdent("verifRun")
+						return n
+					}
+				}
 			}
 			if id, ok := n.Fun.(*ast.Ident); ok && id.Name == "close" && len(n.Args) == 1 {
 				if _, isB := r.info.Uses[id].(*types.Builtin); isB {
